@@ -224,6 +224,22 @@ def generate(src_dir):
         raise Unclassified("DEFAULT_BLOCK_SIZE is not an int literal")
 
     ctxcls = find_class(pathio, "AsyncPathIOContext")
+    nursery = find_class(pathio, "PathIONursery")
+    # where the backend object of a session comes from: self.path_io_factory = <callee>(...) in
+    # __init__, connection.path_io = <callee>(...) in the dispatcher
+    wiring = []
+    for fn, target_base, target_attr in ((find_method(srv, "__init__"), "self", "path_io_factory"), (disp, "connection", "path_io")):
+        for n in ast.walk(fn):
+            if isinstance(n, ast.Assign) and any(
+                isinstance(tg, ast.Attribute) and isinstance(tg.value, ast.Name) and tg.value.id == target_base and tg.attr == target_attr
+                for tg in n.targets
+            ):
+                if not isinstance(n.value, ast.Call):
+                    raise Unclassified(f"{fn.name}: {target_base}.{target_attr} is not assigned from a call")
+                args = [norm(a) for a in n.value.args]
+                wiring.append(f"{target_base}.{target_attr} = {norm(n.value.func)}({', '.join(args + (['**kw'] if n.value.keywords else []))})")
+    if len(wiring) != 2:
+        raise Unclassified(f"backend wiring: expected 2 assignments, found {wiring}")
 
     cl = find_class(client, "Client")
     dstream = find_class(client, "DataConnectionThrottleStreamIO")
@@ -277,6 +293,8 @@ def generate(src_dir):
         ("xf_retr_open", S(retr_open)),
         ("xf_rest_body", slist(rest_body)),
         ("xf_reset_stmt", slist(reset)),
+        ("xf_backend_wiring", slist(wiring)),
+        ("xf_nursery_call", slist(stmts(find_method(nursery, "__call__").body))),
         ("xf_iter_anext", slist(anext)),
         ("xf_iter_by_block_stream", slist(stmts(find_method(tsio, "iter_by_block").body))),
         ("xf_throttle_read", slist(stmts(find_method(tsio, "read").body))),
